@@ -209,6 +209,11 @@ def gen_server_script(rng):
                                            True, 2, maxn=2)
             pid = rng.choice(IDS)
             cfg['returns'][tok[0]] = gen_return(rng)
+            if rng.random() < 0.05 and cfg['coroutines']:
+                # the handler of this event disconnects the sender before it
+                # returns (asyncio: a coroutine handler, which can await the
+                # server's disconnect())
+                cfg.setdefault('bye_tokens', []).append(tok[0])
             if rng.random() < 0.12 and R.has_bytes(args) and \
                     serializer == 'default':
                 t, ns = tns()
@@ -240,11 +245,15 @@ def gen_server_script(rng):
                     f = mutate_msgpack(rng, f)
             ops.append(['raw', T(), f])
         elif r < 0.66:
-            ops.append(['enter', sid(), rng.choice(ROOMS), rng.choice(pool)])
+            # (rooms named like a session id: somebody's personal room)
+            ops.append(['enter', sid(), rng.choice(ROOMS) if rng.random() <
+                        0.8 else sid(), rng.choice(pool)])
         elif r < 0.70:
-            ops.append(['leave', sid(), rng.choice(ROOMS), rng.choice(pool)])
+            ops.append(['leave', sid(), rng.choice(ROOMS) if rng.random() <
+                        0.8 else sid(), rng.choice(pool)])
         elif r < 0.73:
-            ops.append(['close_room', rng.choice(ROOMS), rng.choice(pool)])
+            ops.append(['close_room', rng.choice(ROOMS) if rng.random() <
+                        0.8 else sid(), rng.choice(pool)])
         elif r < 0.78:
             ops.append(['sdisc', sid(), rng.choice(pool)])
         elif r < 0.91:
